@@ -12,7 +12,7 @@ import (
 func init() {
 	register(&propDef{
 		id: "C36", run: runC36, minOblig: 24,
-		explanation: "Decides connection-protocol structure in ssh/mux.go and ssh/channel.go by abstractly interpreting the body of the read loop, mux.onePacket, path- and context-sensitively with the same-package helpers it reaches expanded in place (values identified by provenance through helper parameters, branch conditions — if-chains, switches, type switches, bool/error helper results — folded into per-path knowledge about dynamic types, nil-ness, flag loads and the contents of channel.direction / channel.decided): (reply gating) on every path, every channel send into mux.globalResponses, and every send into channel.msg of a value whose dynamic type may be *channelRequestSuccessMsg / *channelRequestFailureMsg, is a non-blocking select and follows a Load() == true of the …Pending flag of the same object, wherever gate and send are factored; the flags are written (Store/Swap/CompareAndSwap, also through a pointer passed to a helper) only by the matching SendRequest, its closures, or unexported helpers called from nowhere else; (open replies) stores to remoteId / maxRemotePayload of a looked-up channel and, once the decoded message is known to be an OPEN_CONFIRMATION / OPEN_FAILURE, channel-list removal, window credit and delivery into channel.msg happen only on paths that found direction != channelInbound and decided == false, and such paths store decided = true before onePacket returns; if responseMessageReceived exists as a function it is additionally evaluated over the four (direction, decided) cases; (unknown channels) channel.handlePacket is entered only with a receiver known non-nil, and for getChan(id) == nil onePacket returns handleUnknownChannelPacket's result, all of whose returns (looking through helpers it returns) are an error, a sent reply, or nil behind WantReply == false; (exhaustiveness) for all 256 message codes the codes for which a call of handleGlobalPacket is reachable (in onePacket or a dispatch helper, finite-domain evaluation per function up the call chain) decode (by evaluating decode's switch) to types that handleGlobalPacket or its helpers type-assert, so its default panic is unreachable; the same for forwardList.handleChannels' channel-type comparisons against the registered types; (identifier roles) chanList.remove/getChan are never given a value that originates (through any call chain) from a channel's remoteId and every PeersID / header id written by channel methods is remoteId; (shutdown) by interpreting mux.loop, deferred calls included: every path to its return has executed dropAll and the closes of the receiver's incomingChannels, incomingRequests and globalResponses, in loop or in helpers; (length guards) the computation of the id given to getChan is unreachable for packets shorter than 5 bytes and reachable from 5 bytes on. NOT decided: implicit panics on variable indices; blocking of the read loop on queued non-reply messages; that SendRequest disarms the gate again.",
+		explanation: "Decides connection-protocol structure in ssh/mux.go and ssh/channel.go by abstractly interpreting the body of the read loop, mux.onePacket, path- and context-sensitively with the same-package helpers it reaches expanded in place (values identified by provenance through helper parameters, branch conditions — if-chains, switches, type switches, bool/error helper results — folded into per-path knowledge about dynamic types, nil-ness, flag loads and the contents of channel.direction / channel.decided): (reply gating) on every path, every channel send into mux.globalResponses, and every send into channel.msg of a value whose dynamic type may be *channelRequestSuccessMsg / *channelRequestFailureMsg, is a non-blocking select and follows a Load() == true of the …Pending flag of the same object, wherever gate and send are factored; the flags are written (Store/Swap/CompareAndSwap, also through a pointer passed to a helper) only by the matching SendRequest, its closures, or unexported helpers called from nowhere else; (open replies) stores to remoteId / maxRemotePayload of a looked-up channel and, once the decoded message is known to be an OPEN_CONFIRMATION / OPEN_FAILURE, channel-list removal, window credit and delivery into channel.msg happen only on paths that found direction != channelInbound and decided == false, and such paths store decided = true before onePacket returns; if responseMessageReceived exists as a function it is additionally evaluated over the four (direction, decided) cases; (unknown channels) channel.handlePacket is entered only with a receiver known non-nil, and for getChan(id) == nil onePacket returns handleUnknownChannelPacket's result, all of whose returns (looking through helpers it returns) are an error, a sent reply, or nil behind WantReply == false; (exhaustiveness) for all 256 message codes the codes for which a call of handleGlobalPacket is reachable (in onePacket or a dispatch helper, finite-domain evaluation per function up the call chain) decode (by interpreting decode with packet[0] bound to the code and its package helpers expanded in place, and reading the dynamic type of the message it returns) to types that handleGlobalPacket or its helpers type-assert, so its default panic is unreachable; the same for forwardList.handleChannels' channel-type comparisons against the registered types; (identifier roles) chanList.remove/getChan are never given a value that originates (through any call chain) from a channel's remoteId and every PeersID / header id written by channel methods is remoteId; (shutdown) by interpreting mux.loop, deferred calls included: every path to its return has executed dropAll and the closes of the receiver's incomingChannels, incomingRequests and globalResponses, in loop or in helpers; (length guards) the computation of the id given to getChan is unreachable for packets shorter than 5 bytes and reachable from 5 bytes on. NOT decided: implicit panics on variable indices; blocking of the read loop on queued non-reply messages; that SendRequest disarms the gate again.",
 		assumptions: []string{"packets handed to onePacket are non-empty (C24/C26: connectionState.readPacket rejects empty payloads)"},
 	})
 	tech("C36", "path- and context-sensitive abstract interpretation of the read loop with helpers expanded in place (c36_explore.go), who-may-write tables over all call chains, finite-domain enumeration of all 256 message codes through the routing and decode switches, identifier-role provenance")
@@ -68,22 +68,22 @@ func c36Exhaustive(c *Ctx) {
 	var missing []string
 	var types_ []string
 	for _, code := range routed {
-		e := newEnv()
-		e.bindIndexLoads(dec, func(b ssa.Value) bool { return b == ssa.Value(dec.Params[0]) }, 0, code)
-		e.solve(dec)
-		found := ""
-		allInstrs(dec, func(in ssa.Instruction) {
-			mi, ok := in.(*ssa.MakeInterface)
-			if !ok || !e.reach[mi.Block()] {
-				return
-			}
-			if al, ok := mi.X.(*ssa.Alloc); ok && al.Heap {
-				found = mi.X.Type().String()
-			}
-		})
+		// the dynamic type(s) of the message decode returns for this code: decode
+		// is interpreted with packet[0] == code, its helpers expanded in place
+		got, why := c36DecodedTypes(c, dec, code)
+		if why != "" {
+			c.undecided("C36.exhaustive", "handleGlobalPacket default panic unreachable", dec, fmt.Sprintf("message code %d: %s", code, why))
+			return
+		}
+		found := strings.Join(got, ",")
 		types_ = append(types_, fmt.Sprintf("%d->%s", code, short(found)))
-		if found == "" || !handled[found] {
-			missing = append(missing, fmt.Sprintf("code %d decodes to %q", code, short(found)))
+		if len(got) == 0 {
+			missing = append(missing, fmt.Sprintf("code %d decodes to %q", code, ""))
+		}
+		for _, t := range got {
+			if !handled[t] {
+				missing = append(missing, fmt.Sprintf("code %d decodes to %q", code, short(t)))
+			}
 		}
 	}
 	sort.Strings(missing)
